@@ -112,8 +112,85 @@ func checkConcurrentFailureReports(p *core.Program, r *core.Report) {
 			}
 		})
 	}
-	r.Min("ReportFailure calls in per-peer goroutines", 1)
-	r.Count("ReportFailure calls in per-peer goroutines", nSites)
+	// the reports may just as well be made sequentially after the goroutines were joined: what must exist is a
+	// failure report reachable from forward at all
+	nAll := 0
+	fwdFn := p.Func(routingPkg, "Core", "forward")
+	core.EachInstrDeep(fwdFn, func(f *ssa.Function, in ssa.Instruction) {
+		if c, ok := in.(*ssa.Call); ok && c.Common().IsInvoke() && c.Common().Method.Name() == "ReportFailure" {
+			nAll++
+		}
+	})
+	r.Min("ReportFailure calls in Core.forward", 1)
+	r.Count("ReportFailure calls in Core.forward", nAll)
+	r.Analysed["ReportFailure_calls_in_per_peer_goroutines"] = nSites
+
+	checkLoopVarCapture(p, r)
+}
+
+// checkLoopVarCapture: the module declares a Go version below 1.22, so a `for`
+// loop has ONE instance of each loop variable. A closure started with `go`
+// (or deferred) inside the loop that refers to such a variable — instead of
+// receiving its value as an argument — reads whatever value the variable has
+// when the goroutine gets to it, usually the last one: what one peer's
+// goroutine records (a failure, a result) is booked against another peer.
+// In SSA the variable is an Alloc outside the loop body that is stored to
+// inside the loop and bound into the closure.
+func checkLoopVarCapture(p *core.Program, r *core.Report) {
+	n := 0
+	reach := p.DaemonReachable()
+	for _, fn := range p.RepoFuncs() {
+		if !reach[topFunc(fn)] {
+			continue
+		}
+		loops := core.Loops(fn)
+		if len(loops) == 0 {
+			continue
+		}
+		core.EachInstr(fn, func(in ssa.Instruction) {
+			var cc *ssa.CallCommon
+			switch x := in.(type) {
+			case *ssa.Go:
+				cc = x.Common()
+			case *ssa.Defer:
+				cc = x.Common()
+			default:
+				return
+			}
+			mc, ok := cc.Value.(*ssa.MakeClosure)
+			if !ok {
+				return
+			}
+			l := core.InnermostLoop(loops, in.Block())
+			if l == nil {
+				return
+			}
+			n++
+			var bad []string
+			for i, b := range mc.Bindings {
+				a, ok := b.(*ssa.Alloc)
+				if !ok || l.Blocks[a.Block()] {
+					continue // not a variable, or a per-iteration variable
+				}
+				written := false
+				for _, ref := range *a.Referrers() {
+					if st, ok := ref.(*ssa.Store); ok && st.Addr == ssa.Value(a) && l.Blocks[st.Block()] {
+						written = true
+					}
+				}
+				if written {
+					name := a.Comment
+					if fv := mc.Fn.(*ssa.Function).FreeVars; i < len(fv) {
+						name = fv[i].Name()
+					}
+					bad = append(bad, name)
+				}
+			}
+			r.Check(len(bad) == 0, fmt.Sprintf("loop-variable-capture/%s#%d", fname(fn), n), "a closure started as goroutine (or deferred) inside a loop does not refer to a variable that the loop assigns on every iteration (Go < 1.22: one variable per loop); per-iteration values are passed as arguments", p.Pos(in.Pos()), "", "the closure captures "+strings.Join(bad, ", ")+", which the loop overwrites: the goroutine sees the value of a later iteration (e.g. a failure is booked against the last peer instead of the one that failed)")
+		})
+	}
+	r.Count("goroutine/defer closures inside loops (daemon code)", n)
+	r.Min("goroutine/defer closures inside loops (daemon code)", 1)
 }
 
 // C05 — store-carry-forward: an accepted bundle is never silently lost.
